@@ -204,6 +204,7 @@ def universe():
          [1], (1,), [1.0], [True], [nan], (nan,), [1, 2], (1, 2), [2, 1], [[1, 2]], [(1, 2)], [1, [2, nan]], [1, (2, nan)], ['a'], [None],
          [ts], [D(2020, 1, 1)],
          # dicts and subclasses
+         {'a': None}, {'b': None}, {'a': 1, 'b': None}, {'a': 1, 'c': None}, [{'a': None}], [{'b': None}],      # a key that is missing must not read as None
          {'a': 1}, DC(1, a=1), DC(2, a=1), {'a': 1.0}, {'a': 2}, {'b': 1}, {'a': 1, 'b': 2}, {'b': 2, 'a': 1}, {'a': nan}, {'a': {'x': nan}},
          {'a': [1, 2], 'b': [3, 4]}, {'a': (1, 2), 'b': (3, 4)}, {'a': [1, 2], 'b': [3]},
          # arrays
